@@ -36,6 +36,7 @@ structure HCand where
   hooked : List Nat              -- parked at the hook
   reported : List Nat            -- calls whose `ret` entry has been consumed
   cap : Nat                      -- current Capacity() of the fake limiter
+  maxc : Nat := 0                -- current MaxCapacity() of the fake limiter
   costs : List (Nat × Nat)       -- obj ↦ cost override
   pendingPause : Nat             -- Pause() calls announced in the trace whose effect has not been placed yet
   cbMap : List (Nat × Nat)       -- harness callback number ↦ model batch id
@@ -247,7 +248,7 @@ def applyEntry (sc : HScn) (cd : HCand) (f : List String) : List HCand :=
     let hi := attemptsOf s obj
     let lo := ((s.batches.filter (·.raisedAt < s.now)).map (fun b => (b.ops.filter (·.obj == obj)).length)).sum
     let outcome (att : Nat) : Option Err :=
-      validate (EnqInput.mk true true sc.c.limited sc.maxcap (costOf sc cd obj) (sc.wMaxAtt o.w) att)
+      validate (EnqInput.mk true true sc.c.limited cd.maxc (costOf sc cd obj) (sc.wMaxAtt o.w) att)
     let accept : HCand := { cd with calls := cd.calls ++ [(n2, obj)] }
     match outcome lo, outcome hi with
     | none, none => [accept]
@@ -275,6 +276,7 @@ def applyEntry (sc : HScn) (cd : HCand) (f : List String) : List HCand :=
       let waits := sc.c.gen == .v1 && s.phase != .stopped
       ((stepC sc cd .stopCall).map fun cd' => if waits then { cd' with stopWaiters := n3 :: cd'.stopWaiters } else cd').toList
     else if a2 == "c" then [{ cd with cap := n3 }]
+    else if a2 == "m" then [{ cd with maxc := n3 }]
     else if a2 == "k" then
       let cost := ((f.getD 4 "").toNat?).getD 0
       ((stepC sc cd (.setCost n3 cost)).map fun cd' => { cd' with costs := (n3, cost) :: cd'.costs.filter (·.1 != n3) }).toList
@@ -345,7 +347,7 @@ def acceptHist (sc : HScn) (cap0 : Nat) (entries : List String) : Option String 
   let mut maxC := 0
   let mut work := 0
   let init : HCand := {
-    st := St.init sc.c, calls := [], hooked := [], reported := [], cap := cap0, costs := [],
+    st := St.init sc.c, calls := [], hooked := [], reported := [], cap := cap0, maxc := sc.maxcap, costs := [],
     pendingPause := 0, cbMap := [], cbStarted := [], stopWaiters := [], owed := [] }
   let mut cands : List HCand := [init]
   let mut idx := 0
